@@ -63,6 +63,10 @@ func fieldOfSrc(src string) (string, string) {
 }
 
 func runC05(w *World, r *Report) {
+	r.Rule("tailguard", "a decoder that keeps the rest of its input from some offset admits every input that has a byte there", 1)
+	tailGuardRule(w, r, "tailguard", func(k *Kind) bool { return strings.HasPrefix(k.Name, "openflow13.") || strings.HasPrefix(k.Name, "common.") })
+	r.Rule("observers", "methods that formatting calls implicitly (String, Error, …) leave the value unchanged", 1)
+	observerRule(w, r, "observers", "openflow13", "common", "util")
 	r.Rule("owns-memory", "a decoded value keeps no reference into the input it was decoded from (the C12 may-alias rule): it still equals what was decoded when the input buffer is reused", 60)
 	{
 		r2 := NewReport(r.Prop, r.Tier)
@@ -568,6 +572,7 @@ func mirrorKind(w *World, r *Report, k *Kind, efi, dfi *FuncInfo) {
 			// the field may be written as part of a packed expression (local source): look for any write at the offset
 			packed := false
 			computed := ""
+			altered := ""
 			for _, wm := range W {
 				if wm.off.Equal(rm.off) && (wm.local || wm.kind == "packed") {
 					// a value computed from other parts of the receiver (the size of the payload written where
@@ -580,6 +585,15 @@ func mirrorKind(w *World, r *Report, k *Kind, efi, dfi *FuncInfo) {
 						computed = wm.raw
 						continue
 					}
+					// the decoder takes the whole word at this offset as the field; an encoder that writes a word of the
+					// same width computed from the field and something else (the field plus 4 under a condition) does
+					// not give the field back
+					if wm.kind != "packed" && wm.w.Equal(rm.w) && (rm.kind == "int" || rm.kind == "byte") && strings.Contains(wm.raw, "$.") && wm.raw != "val("+rm.field+")" && !bitPacked(wm.raw) {
+						if !specDerived(k.Name, wm.off.String(), wm.raw) {
+							altered = wm.raw
+							continue
+						}
+					}
 					packed = true
 				}
 				// a read inside the window of a packed word (the 32-bit OXM header): the lanes rule of C15
@@ -589,6 +603,10 @@ func mirrorKind(w *World, r *Report, k *Kind, efi, dfi *FuncInfo) {
 			}
 			if packed {
 				r.OK("mirror", k.Name, inst, w.Pos(rm.pos), fmt.Sprintf("offset %v is packed from several fields on the encoder side (bit-lane rule)", rm.off), false)
+				continue
+			}
+			if altered != "" && !packed {
+				r.Fail(VViolation, "mirror", k.Name, inst, w.Pos(rm.pos), fmt.Sprintf("the decoder takes the whole word at offset %v as %s, but the encoder writes %s there: a decoded value is not encoded back to the bytes it came from", rm.off, rm.field, altered))
 				continue
 			}
 			if computed != "" {
@@ -620,6 +638,11 @@ func specDerived(kind, off, src string) bool {
 		}
 	}
 	return false
+}
+
+// bitPacked: the rendered source combines its parts with bit operations (shifts, and/or): a packed word.
+func bitPacked(raw string) bool {
+	return strings.Contains(raw, "<<") || strings.Contains(raw, ">>") || strings.Contains(raw, "|") || strings.Contains(raw, "&") || strings.Contains(raw, "opq(")
 }
 
 var recvPathRE = regexp.MustCompile(`\$(\.[A-Za-z0-9_]+)+`)
@@ -1851,4 +1874,77 @@ func stmtsAfter(root *ast.BlockStmt, target ast.Stmt) []ast.Stmt {
 // least. A header of zero ends the list, which is why the decoder stops when fewer than 8 bytes remain.
 var reviewedMinElem = map[string]int64{
 	"openflow13.NXLearnSpec": 8,
+}
+
+// ---- the rest of the input is taken whenever there is one ----
+//
+// tailGuardRule: a decoder that copies "everything from offset N to the end" into a field (payload, options,
+// trailing data) under a test on the input length must admit every input that has a byte at N. A guard
+// that asks for more (len > 20 in front of data[8:]) silently drops short tails: the bytes were on the wire
+// and are not in the decoded value. (A guard that asks for less is the bounds rule's business.)
+var tailGuardForms = []struct {
+	re   *regexp.Regexp
+	plus int64 // smallest admitted length = constant + plus
+}{
+	{regexp.MustCompile(`^(\d+)<len\(P\)$`), 1},
+	{regexp.MustCompile(`^(\d+)<=len\(P\)$`), 0},
+	{regexp.MustCompile(`^!\(len\(P\)<(\d+)\)$`), 0},
+	{regexp.MustCompile(`^!\(len\(P\)<=(\d+)\)$`), 1},
+}
+
+func tailGuardRule(w *World, r *Report, rule string, inScope func(k *Kind) bool) {
+	for _, k := range w.KindsL {
+		if k.Unmarshal == nil || !k.OwnUnmarshal || !inScope(k) {
+			continue
+		}
+		dfi := w.FuncOf(k.Unmarshal)
+		if dfi == nil {
+			continue
+		}
+		ds := w.Interpret(dfi, "decode")
+		if ds == nil {
+			continue
+		}
+		n := 0
+		for _, rd := range ds.Reads {
+			if rd.Kind != "bytes" && rd.Kind != "child" || rd.Off == nil || rd.W == nil || !rd.Off.IsConst() || rd.Loop != nil {
+				continue
+			}
+			// to the end of the input: width = len(P) − offset
+			if !rd.W.Add(rd.Off).Equal(LenOf("P")) {
+				continue
+			}
+			// a child decoded from the very start, or into a local the decoder only looks at, is no payload
+			if rd.Kind == "child" && (rd.Off.C == 0 || !strings.HasPrefix(rd.Src, "dec($.")) {
+				continue
+			}
+			n++
+			inst := fmt.Sprintf("%s@%d", rd.Src, rd.Off.C)
+			min := int64(0)
+			which := ""
+			for _, c := range conjunctsOf(rd.Guard) {
+				c = strings.TrimSpace(c)
+				for _, f := range tailGuardForms {
+					if m := f.re.FindStringSubmatch(c); m != nil {
+						var v int64
+						fmt.Sscan(m[1], &v)
+						if v+f.plus > min {
+							min, which = v+f.plus, c
+						}
+					}
+				}
+			}
+			if min > rd.Off.C+1 {
+				r.Fail(VViolation, rule, k.Name, inst, w.Pos(rd.Pos), fmt.Sprintf("the rest of the input from offset %d is taken only when %s: an input of %d to %d bytes has bytes there that the decoded value does not contain", rd.Off.C, which, rd.Off.C+1, min-1))
+			} else {
+				g := rd.Guard
+				if g == "" {
+					g = "unconditionally"
+				} else {
+					g = "under [" + g + "]"
+				}
+				r.OK(rule, k.Name, inst, w.Pos(rd.Pos), fmt.Sprintf("the rest of the input from offset %d is taken %s: every input with a byte there is admitted", rd.Off.C, g), true)
+			}
+		}
+	}
 }
